@@ -235,6 +235,11 @@ func c02Cfg() vrt.Config {
 	return cfg
 }
 
+var lockPhaseCases = []Case{
+	{Tree: []Entry{{Path: "a", Size: 4}, {Path: "b", Size: 8}}, Chunk: 4, Streams: 1, Conns: 1, Resume: true, NoRootDir: true},
+	{Tree: []Entry{{Path: "a", Size: 8}, {Path: "b", Size: 8}}, Chunk: 4, Streams: 2, Conns: 1, Resume: false, NoRootDir: true},
+}
+
 func modeC02() {
 	res.Rule = "for each workload the fault-free run yields the byte length of every stream direction; then one execution per (stream direction, byte position, fault kind) with the fault armed exactly there - peer close with code 0, abrupt loss, cancel of sender, cancel of receiver, bit flip of the byte, source shrink/removal - each at deviation bound 0 and a stride of positions at bound 1; non-trivial = the fault fired; distinct by (workload, fault)"
 	thorough := vlib.F.Tier == "thorough"
@@ -326,6 +331,67 @@ func modeC02() {
 		}
 		os.RemoveAll(p.SrcRoot)
 	}
+	// Lock-level phase: the same faults on a small two-file workload with mutex acquisitions as
+	// scheduling points, so that check-then-act sequences inside the receiver's and sender's
+	// bookkeeping (finalisation, counters, registries) are interleaved with the abort.
+	lockBound := int(vlib.ArgInt("lockbound", 1))
+	if thorough {
+		lockBound = int(vlib.ArgInt("lockbound", 2))
+	}
+	lockExecs := int64(0)
+	lockCases := []Case{}
+	if thorough {
+		lockCases = lockPhaseCases
+	}
+	for wi, c := range lockCases {
+		p, err := prepare(c)
+		if err != nil {
+			res.InfraError("prepare: %v", err)
+			continue
+		}
+		cfg := c02Cfg()
+		cfg.LockPoints = true
+		cfg.FlatCosts = true
+		env0, obs0 := c02Env(p, nil)
+		x0 := vrt.Run(cfg, nil, func() { runTransfer(p, env0) })
+		if x0.Outcome != "ok" || last.SendErr != nil || last.RecvErr != nil {
+			res.InfraError("lock phase: baseline of workload %d is not a clean success: %s %v %v", wi, x0.Outcome, last.SendErr, last.RecvErr)
+			continue
+		}
+		keys := append([]string{}, obs0.order...)
+		sort.Strings(keys)
+		for _, k := range keys {
+			if strings.HasSuffix(k, ":0") || !strings.Contains(k, "/c:") {
+				continue // data streams towards the receiver only
+			}
+			n := obs0.counts[k]
+			for pos := int64(0); pos < n; pos += 10 {
+				for _, kind := range []string{"cancelS", "peerclose"} {
+					f := FaultSpec{k, pos, kind, 0}
+					job++
+					if !vlib.MineKey(fmt.Sprintf("lock|%d|%s", wi, f)) {
+						continue
+					}
+					env, obs := c02Env(p, &f)
+					e := &vrt.Explorer{Cfg: cfg, Bound: lockBound, Deadline: deadline, Root: func() { runTransfer(p, env) }}
+					e.Visit = func(x *vrt.Exec) bool {
+						lockExecs++
+						if obs.fired {
+							nfired++
+							res.Nontrivial(fmt.Sprintf("lock|%d|%s|%x", wi, f, x.Trace()))
+						}
+						checkC02(p, &f, x, last)
+						return true
+					}
+					e.Run()
+					st.add(e)
+				}
+			}
+		}
+		os.RemoveAll(p.SrcRoot)
+	}
+	res.Extra["lock_phase_executions"] = float64(lockExecs)
+	res.Extra["lock_phase_bound"] = fmt.Sprint(lockBound)
 	res.Extra["executions_in_which_the_fault_fired"] = float64(nfired)
 	st.finish()
 }
